@@ -251,6 +251,18 @@ def stream_common(ctx, prog):
     f = prog.fn("generate_easy_std::hash_stream_common")
     sy = Sym(f)
     found = discipline(ctx, prog, f)
+    # the generator handed in is only fed and finalised here: a size declaration, a reset or any other call on it changes what the
+    # stream hashes to (a short first read is not the end of the input)
+    gen_calls = []
+    for i, t in f.calls():
+        for a in t["args"]:
+            try:
+                if is_param(strip(sy.operand(a)), "generator"):
+                    gen_calls.append(callee_of(t).split("::")[-1])
+            except Exception:
+                pass
+    ctx.ob(R, "hash_stream_common: the generator is used by `update` and `finalize` only", sorted(gen_calls) == ["finalize", "update"],
+           "calls on the generator: %s" % sorted(gen_calls), f.loc())
     reads = [(i, t) for i, t in f.calls() if callee_of(t).endswith("io::Read::read")]
     if len(reads) == 2:
         return _stream_common_rotated(ctx, prog, f, sy, found, reads)
